@@ -738,6 +738,52 @@ impl Gen {
         }
     }
 
+    /// Two interners of `n` strings that are equal (`variant` 0) or differ in exactly two positions in a way
+    /// that keeps every aggregate equal - the count, the total length, the multiset of strings (1: two strings
+    /// swapped; 2: one string loses its last byte and another gains one, each still a prefix of / extended from
+    /// its counterpart; 3: an empty string and a non-empty one swapped) - compared in both directions and again
+    /// after one side became a reader and then a resolver.
+    pub fn eq_pairs_case(&mut self, n: usize, variant: usize) {
+        self.cap = 4294967295;
+        self.slots.clear();
+        self.build_universe(8);
+        self.emit("case spur fnv1a".into());
+        let pool: Vec<String> = self.pool.iter().map(|p| hex(p)).collect();
+        self.emit(format!("pool {}", pool.join(" ")));
+        let s0 = self.new_slot("rodeo", 4096, None);
+        let s1 = self.new_slot("rodeo", 4096, None);
+        let mut a: Vec<Vec<u8>> = (0..n).map(|i| format!("w{i:04}x").into_bytes()).collect();
+        let i = (self.rng.below(n as u64 - 1)) as usize;
+        let j = i + 1 + self.rng.below((n - i - 1) as u64) as usize;
+        if variant == 3 {
+            a[i] = Vec::new();
+        }
+        let mut b = a.clone();
+        match variant {
+            1 | 3 => b.swap(i, j),
+            2 => {
+                b[i].pop();
+                b[j].push(b'y');
+            }
+            _ => {}
+        }
+        for (si, l) in [(s0, &a), (s1, &b)] {
+            for x in l.iter() {
+                self.emit(format!("intern {si} {}", hex(x)));
+                self.note_intern(si, x.clone());
+            }
+        }
+        for conv in ["", "intoReader", "intoResolver"] {
+            if !conv.is_empty() {
+                self.emit(format!("{conv} {s1}"));
+                self.slots[s1].kind = if conv == "intoReader" { "reader" } else { "resolver" };
+            }
+            self.emit(format!("eq {s0} {s1}"));
+            self.emit(format!("eq {s1} {s0}"));
+            self.emit(format!("eq {s1} {s1}"));
+        }
+    }
+
     /// Many distinct strings into a zero-capacity table: several real table growths.
     pub fn growth_case(&mut self, n: usize, hasher: &str) {
         self.cap = 4294967295;
